@@ -23,7 +23,7 @@ LEVEL = 'proof'
 MANIFEST = {
     'category': 'proof',
     'technique': 'contract-based deductive verification of TorConfigType.parse per declared type, _find_real_name and the shape-preservation postcondition of the real _conf_changed (pyvc VCs, z3/cvc5); bounded CPython twin over option tables and CONF_CHANGED sequences through a scripted Tor',
-    'text': 'Proved: Boolean.parse(s) = (int(s) != 0), Boolean_Auto.parse('auto') = -1 (numeric inputs: twin), Integer.parse = int, LineList.parse of a list keeps '
+    'text': 'Proved: Boolean.parse(s) = (int(s) != 0), Boolean_Auto.parse of the text auto is -1 (numeric inputs: twin), Integer.parse = int, LineList.parse of a list keeps '
             'every element (stripped) in order; _find_real_name returns a key of parsers/config equal to the name up to case when one exists, else the name; '
             '_conf_changed, for a reported scalar option, stores parse(value) (or the parsed default / DEFAULT marker when unset) and, for a list-valued option, '
             'stores a tracked list holding exactly the reported values whether Tor reported none, one or many - and touches no other option.',
